@@ -26,6 +26,10 @@ claimed = {
    text="With the stream length symbolic, ReadFile returns nil only if the last stream access was a block-count read that found end-of-input before its first byte (zero bytes consumed since the loop head, position == length) and the preceding event, if any, is a complete sync-marker read; every other exit returns a non-nil error. ReadUvarint distinguishes clean EOF (no byte consumed) from mid-varint EOF; ReadFull reports short reads; callbacks only happen inside a block whose payload was completely read and decompressed.",
    ref="DESIGN.md section 5/C08",
    note="Same assumptions as C07. 'Loop head = block boundary' is structural (the loop head is reached only after the header or after a matching sync marker, which the loop invariant lastIsSync states)."),
+ "C18": dict(cat="proof", tech="contract-based deductive verification against an RFC 3339 grammar predicate over the input bytes (loop invariant over the fraction digits, recursive ghost digit value, loop postconditions); z3/cvc5",
+   text="parseTime, atoi2, atoi4 and getTimezone are verified for all strings: no panic, and for every string matching the RFC 3339 date-time grammar (any fraction length, '.' or ',' separator, Z or numeric offset) or the YYYY-MM-DD form, the result is err == nil with instant civil(Y,M,D,h,m,s) - offset, nanoseconds = the first nine fraction digits (truncation), and zone offset as written. Agreement with the standard library is through the assumed contract that time.Parse(RFC3339) denotes the same grammar and values.",
+   ref="DESIGN.md section 5/C18",
+   note="Assumed: algebraic contract of time.Date/FixedZone (instant = civil - offset), time.Parse/Format denote the RFC 3339 grammar, the zone cache invariant tzInv on entry, rune decoding of range-over-string (ASCII bytes are themselves, other runes are >= 0x80); umul_exact schema instances."),
 }
 reasons = {}
 allp = [json.loads(l)["id"] for l in open("/verif/properties.jsonl")]
